@@ -26,6 +26,10 @@ pub trait Hooks: Send + Sync {
     fn pid_alive(&self, _pid: u32) -> Option<bool> {
         None
     }
+    /// Answer of `kill(pid, 0)`: `Some(0)` delivered, `Some(errno)` failed, `None` = ask the OS.
+    fn kill_errno(&self, _pid: u32) -> Option<i32> {
+        None
+    }
     fn ping(&self, _endpoint: &str) -> Option<bool> {
         None
     }
@@ -83,6 +87,10 @@ pub fn pid() -> Option<u32> {
 
 pub fn pid_alive(pid: u32) -> Option<bool> {
     current().and_then(|h| h.pid_alive(pid))
+}
+
+pub fn kill_errno(pid: u32) -> Option<i32> {
+    current().and_then(|h| h.kill_errno(pid))
 }
 
 pub fn ping(endpoint: &str) -> Option<bool> {
